@@ -38,6 +38,8 @@ impl RandomPolicy {
             let max = self.store.len();
             if max == 0 {
                 // nothing is stored any more: only the record being added is accounted
+                #[cfg(memcrs_verif)]
+                crate::verif_hooks::yield_point("atomic.store");
                 self.memory_usage.store(value, atomic::Ordering::Release);
                 break;
             }
